@@ -414,6 +414,11 @@ impl Report {
       self.violations.len() - new_viol.len(),
       wall
     );
+    if !self.capped.is_empty() {
+      // a wall-clock cap was hit (loaded machine) or part of the space was not judged: said here
+      // as well as in the evidence (coverage.caps_hit, coverage.exhaustive = false)
+      println!("CAPPED property={} not exhaustive within the stated bounds this run: {}", self.id, self.capped.join("; "));
+    }
     exit
   }
 }
